@@ -144,6 +144,24 @@ func respell(rnd *rand.Rand, x string, roots []ast.Node) (string, bool) {
 }
 
 func init() {
+	// expr-respell: for every input accepted by ParseExpr, three re-spellings (trivia, keyword case, pseudo-keyword case): "hex(x) hex(y)"
+	commands["expr-respell"] = func(args []string) {
+		e := entryByName("ParseExpr")
+		stdinLines(func(line string) {
+			h := strings.TrimSpace(line)
+			x := unhx(h)
+			n1, ok := accepted(e, x)
+			if !ok {
+				return
+			}
+			rnd := rand.New(rand.NewSource(seedFor(x)))
+			for k := 0; k < 3; k++ {
+				if y, ok := respell(rnd, x, n1); ok {
+					fmt.Fprintf(out, "%s %s\n", h, hx(y))
+				}
+			}
+		})
+	}
 	parseOracles["C16"] = func(e *entryPoint, x string) (string, string, bool) {
 		n1, ok := accepted(e, x)
 		if !ok {
